@@ -1,6 +1,7 @@
 import Starcal.Props.C02
 import Starcal.Spec.Rules
 import Starcal.Walk
+import Starcal.HijriT5
 /-! # C03 — each calendar equals its published rule: anchor day + leap rule + month lengths
 
 `FollowsRule c r`: the model of the library's calendar `c` puts the rule's anchor date on the
@@ -196,6 +197,64 @@ theorem C03_gregorian_proleptic : FollowsRule calGprol gregorianProleptic where
       simp [h, this]
   bij := C01_gregorian_proleptic
   cons := C02_gregorian_proleptic
+
+/-! ## hijri in month-table mode: inside the table window the table's month lengths are the rule -/
+
+/-- the rule inside the window, written from the table **as the running library loaded it**
+    (`Gen.HijriTable` is regenerated on every run): the table's first day carries the table's start
+    date, and month `(y, m)` has the length the table lists for it -/
+def hijriTableRule : Rule where
+  anchorJd := Gen.hijriStartJd
+  anchor := Gen.hijriStartDate
+  isLeap := hijLeap
+  monthLen y m :=
+    (Gen.hijriLens[(y * 12 + m - 1 - (Gen.hijriStartDate.1 * 12 + Gen.hijriStartDate.2.1 - 1)).toNat]?).getD 0
+
+/-- `n` days after the rule's anchor date, one rule step per day -/
+def _root_.Starcal.Spec.Rule.walk (r : Rule) : Nat → Int × Int × Int
+  | 0 => r.anchor
+  | n + 1 => r.succ (r.walk n)
+
+theorem hijriTableRule_succ (d : Hijri.Date) :
+    hijriTableRule.succ (d.year, d.month, d.day) =
+      ((HijriT.tableSucc d).year, (HijriT.tableSucc d).month, (HijriT.tableSucc d).day) := by
+  have hl : Gen.hijriLens = HijriT.lens := rfl
+  have hy : Gen.hijriStartDate.1 * 12 + Gen.hijriStartDate.2.1 - 1 = HijriT.ym0 := by decide
+  unfold Rule.succ HijriT.tableSucc
+  simp only [hijriTableRule, hl, hy, Bool.false_eq_true, false_and, if_false]
+  split
+  · rfl
+  · split <;> rfl
+
+/-- **C03, month-table hijri**: every day of the table's validity window
+    `[startJd, endJd]` is the date reached from the table's start date by counting days with the
+    table's month lengths — the first table month (where `GetMonthLen` itself is off, known finding
+    KF-hijri-table-start-seam) included -/
+theorem C03_hijri_table_window (n : Nat) (h : Gen.hijriStartJd + (n : Int) ≤ Gen.hijriEndJd) :
+    calHijT.jdTo (Gen.hijriStartJd + (n : Int)) = hijriTableRule.walk n := by
+  have hb := C01_hijri_table_bounds_are_source
+  rw [hb.1, hb.2.1] at h
+  rw [hb.1]
+  have hw := HijriT.table_window_walk n h
+  have hjd : calHijT.jdTo (HijriT.startJd + (n : Int)) =
+      ((HijriT.jdToT (HijriT.startJd + n)).year, (HijriT.jdToT (HijriT.startJd + n)).month, (HijriT.jdToT (HijriT.startJd + n)).day) := rfl
+  rw [hjd, hw]
+  clear hw hjd h
+  induction n with
+  | zero => rfl
+  | succ n ih =>
+    show _ = hijriTableRule.succ (hijriTableRule.walk n)
+    rw [← ih, hijriTableRule_succ]
+    rfl
+
+/-- and from the second table month on, the library's `GetMonthLen` reports those same lengths -/
+theorem C03_hijri_table_month_lengths (i : Nat) (L : Int) (hi : 1 ≤ i) (hL : Gen.hijriLens[i]? = some L) :
+    calHijT.monthLen ((HijriT.ym0 + (i : Int)) / 12) ((HijriT.ym0 + (i : Int)) % 12 + 1) = L :=
+  HijriT.monthLenT_table i L hi hL
+
+-- the window is not empty and its last day is reached: 6231 steps from 1 Safar 1426
+example : Gen.hijriStartJd + ((6231 : Nat) : Int) ≤ Gen.hijriEndJd := by decide
+example : hijriTableRule.walk 29 = (1426, 3, 1) := by decide +kernel
 
 /-- calendars that denote the same reckoning agree day for day: Gregorian and proleptic Gregorian
     for years ≥ 1 -/
